@@ -1,7 +1,7 @@
 (* Proofs for C06, whole plane: the slab lift of Checker/Slab.v instantiated with the verdict [sub_ok] - what
    [check_plane_sub] accepts holds at EVERY point of the plane: every point of every "must" polygon is covered by a
    triangle. *)
-From Coq Require Import QArith Qminmax Lia Lra List.
+From Coq Require Import QArith Qminmax Lia List.
 From LV Require Import Base.Prelude Model.Bezier Model.Winding Checker.Region Checker.StrokeCover Checker.Slab
   Checker.CoverPlane Proofs.C06_Cover Proofs.C01_Slab.
 From Coq Require Import Lqa.
